@@ -56,7 +56,7 @@ class Script:
         return r
 
 
-def mesh_scenario(rng: random.Random):
+def mesh_scenario(rng: random.Random, full: bool = False):
     """2x2x2 lofts, interior points perturbed; returns (mesh, clamps, links, predicates, size)"""
     import classy_blocks as cb
     import numpy as np
@@ -83,7 +83,8 @@ def mesh_scenario(rng: random.Random):
     mesh.assemble()
     o = point([0, 0, 0])
     clamps, preds = [], []
-    kinds = rng.sample(["free", "plane", "line"], rng.randint(1, 3))
+    # full: every clamp kind and every link at once (so that each run mode meets the first and the last vertex as followers)
+    kinds = ["free", "plane", "line"] if full else rng.sample(["free", "plane", "line"], rng.randint(1, 3))
     if "free" in kinds:
         clamps.append(cb.FreeClamp(grid[(1, 1, 1)]))
         preds.append(lambda p, prm: (True, True))
@@ -95,8 +96,13 @@ def mesh_scenario(rng: random.Random):
         clamps.append(cb.LineClamp(grid[(1, 0, 0)], a, b, (0.2 * scale, 1.8 * scale)))
         preds.append(lambda p, prm: (vnorm(vcross(vsub(p, a), ex)) < 1e-6 * scale, 0.2 * scale - 1e-9 <= prm[0] <= 1.8 * scale + 1e-9))
     links = []
-    if "free" in kinds and rng.random() < 0.6:
-        links.append(cb.TranslationLink(grid[(1, 1, 1)], grid[(1, 1, 2)]))
+    if "free" in kinds and (full or rng.random() < 0.7):
+        # one leader may carry several links (Optimizer.tla: NFollow followers of clamp 1), added in any order
+        # (2, 2, 2) is the vertex numbered last: a follower may be any vertex, the first and the last one included
+        targets = [(1, 1, 2), (1, 2, 1), (2, 1, 1), (2, 2, 2), (0, 0, 0)]
+        rng.shuffle(targets)
+        for t in targets[:5 if full else rng.choice([1, 2, 3, 4])]:
+            links.append(cb.TranslationLink(grid[(1, 1, 1)], grid[t]))
     return mesh, clamps, links, preds, scale
 
 
@@ -125,13 +131,13 @@ def sketch_scenario(rng: random.Random):
     return sketch, clamps, [], preds, scale
 
 
-def run_one(ctx: Ctx, rid: int, rng: random.Random, kind: str, mode: str):
+def run_one(ctx: Ctx, rid: int, rng: random.Random, kind: str, mode: str, full: bool = False):
     import numpy as np
     import classy_blocks as cb
     from classy_blocks.optimize import optimizer as optmod
 
     if kind == "mesh":
-        obj, clamps, links, preds, scale = mesh_scenario(rng)
+        obj, clamps, links, preds, scale = mesh_scenario(rng, full)
         opt = cb.MeshOptimizer(obj, report=False)
     else:
         obj, clamps, links, preds, scale = sketch_scenario(rng)
@@ -186,7 +192,9 @@ def run_one(ctx: Ctx, rid: int, rng: random.Random, kind: str, mode: str):
         state.clear()
         orig_clamp(clamp, method)
         q_after = float(grid.quality)
-        tolq = 1e-7 * max(1.0, abs(q_before))
+        # a clamp's parameters come from a numerical closest-point search, so "back where it was" is exact to about
+        # 1e-8 of the size only, and the quality to about 1e-7 relative per step: compare to 1e-5
+        tolq = 1e-5 * max(1.0, abs(q_before))
         moved_here = {junction.index} | {il.follower_index for il in junction.links}
         others = [i for i in range(len(grid.points)) if i not in moved_here]
         q_last = state.get("q_last")
@@ -237,7 +245,7 @@ def run_one(ctx: Ctx, rid: int, rng: random.Random, kind: str, mode: str):
         final_obj = np.array(obj.positions)
     rec = {
         "id": rid, "kind": kind, "mode": mode, "method": method, "steps": steps,
-        "final_worse": bool(q_final > q_initial + 1e-7 * max(1.0, abs(q_initial))),
+        "final_worse": bool(q_final > q_initial + 1e-5 * max(1.0, abs(q_initial))),
         "unclamped_still": bool(all(np.array_equal(final_obj[i], initial[i]) for i in range(len(initial)) if i not in movable)),
         "backport_equal": bool(np.max(np.abs(final_obj - np.array(grid.points))) <= 1e-12 * scale),
         "followers_linked": bool(all(s["followers_linked"] for s in steps) if steps else True),
@@ -251,7 +259,7 @@ def run(ctx: Ctx) -> None:
     ctx.rule = ("runs = small perturbed hex assemblies (2x2x2) and mapped sketches (3x3) under random similarities with random "
                 "subsets of Free/Plane/Line clamps and a translation link, 1..3 iterations, the four scipy methods and three "
                 "scripted minimisers; non-trivial = at least one clamp step recorded; distinct by (kind, mode, method, clamps)")
-    consts = {"NClamps": "2", "NParams": "2", "QMax": "2", "MaxProbes": "2" if ctx.tier == "quick" else "3"}
+    consts = {"NClamps": "2", "NFollow": "2", "NParams": "2", "QMax": "2", "MaxProbes": "2" if ctx.tier == "quick" else "3"}
     text = cfg_text("Spec", consts, ["NeverWorse", "UnclampedStill", "FollowerLinked", "NotHalfApplied", "BackportEqual"], ["StepMonotone"])
     res = run_tlc("Optimizer", "opt.cfg", cfg_text=text, workers=16, timeout=1200)
     ctx.add_tlc(res)
@@ -261,7 +269,7 @@ def run(ctx: Ctx) -> None:
     for i in range(n):
         kind = "mesh" if i % 2 == 0 else "sketch"
         mode = ["real", "scripted-random", "scripted-worse", "scripted-degenerate"][(i // 2) % 4]
-        rec = run_one(ctx, len(recs) + 1, rng, kind, mode)
+        rec = run_one(ctx, len(recs) + 1, rng, kind, mode, full=i < 8)
         if rec is not None:
             recs.append(rec)
     if not recs:
